@@ -4,10 +4,6 @@
 package main
 
 import (
-	"strconv"
-	"time"
-	"sync/atomic"
-	"sync"
 	"bufio"
 	"encoding/hex"
 	"flag"
@@ -15,7 +11,11 @@ import (
 	"os"
 	"path/filepath"
 	"sort"
+	"strconv"
 	"strings"
+	"sync"
+	"sync/atomic"
+	"time"
 )
 
 // Rng is splitmix64; every random choice of a run derives from one seed.
@@ -34,7 +34,7 @@ func (r *Rng) Intn(n int) int {
 	}
 	return int(r.U64() % uint64(n))
 }
-func (r *Rng) Bool() bool       { return r.U64()&1 == 1 }
+func (r *Rng) Bool() bool        { return r.U64()&1 == 1 }
 func (r *Rng) Chance(p int) bool { return r.Intn(100) < p }
 func (r *Rng) Bytes(n int) []byte {
 	b := make([]byte, n)
@@ -44,21 +44,21 @@ func (r *Rng) Bytes(n int) []byte {
 	return b
 }
 func (r *Rng) Pick(xs ...int) int { return xs[r.Intn(len(xs))] }
-func (r *Rng) Fork() *Rng       { return &Rng{s: r.U64()} }
+func (r *Rng) Fork() *Rng         { return &Rng{s: r.U64()} }
 
 // Ctx is handed to every generator.
 type Ctx struct {
-	R      *Rng
-	N      int    // requested number of random cases
-	Tier   string // quick | thorough
-	Corpus string // directory with corpus files for this property (may not exist)
-	ops    *bufio.Writer
-	impl   *bufio.Writer
-	Count  int
-	Kinds  map[string]int // distribution statistics
+	R        *Rng
+	N        int    // requested number of random cases
+	Tier     string // quick | thorough
+	Corpus   string // directory with corpus files for this property (may not exist)
+	ops      *bufio.Writer
+	impl     *bufio.Writer
+	Count    int
+	Kinds    map[string]int       // distribution statistics
 	emitHook func(op, obs string) // when set, Emit hands the case to the hook instead of writing it
 	mu       sync.Mutex
-	lastEmit int64  // unix ns of the last progress (atomic)
+	lastEmit int64        // unix ns of the last progress (atomic)
 	pending  atomic.Value // op line announced by Begin and not emitted yet
 	pendF    *os.File     // the same, on disk: survives a crash of the process (read by ./check)
 }
@@ -188,7 +188,7 @@ func parseOp(line string) (string, map[string]string) {
 }
 
 type Gen struct {
-	Run    func(c *Ctx)                                   // generate + execute cases
+	Run    func(c *Ctx)                                 // generate + execute cases
 	Replay func(c *Ctx, op string, a map[string]string) // execute one given op line
 }
 
